@@ -609,6 +609,18 @@ def gen_c06(tier, rng):
             yield ('c1-invalid-curve-consistent', 'sm2_dec %s 04%s%s%s%s 0 c1c2c3' % (H(d_), H(xi), H(yi), c2i.hex(), c3i.hex()), 'ERR')
         except (ValueError, TypeError):
             pass
+    # consistent ciphertexts for points with a tiny coordinate (x or y), honest encoding (control) and the coordinate encoded as v + p:
+    # every decoder must reject the out-of-range octets although they denote the same residue
+    for (sx, sy) in small_x_points()[:2] + E.small_y_points(3 if tier == 'thorough' else 2):
+        d_ = rscalar(rng, 1, N - 1)
+        m_ = rb(rng, rng.choice([1, 7, 32]))
+        c3s, c2s = _py_ct(d_, (sx, sy), m_)
+        yield ('c1-small-coordinate-control', 'sm2_dec %s 04%s%s%s%s 0 c1c3c2' % (H(d_), H(sx), H(sy), c3s.hex(), c2s.hex()), 'OK ' + m_.hex())
+        for ex, ey in ((sx + P, sy), (sx, sy + P), (sx + P, sy + P)):
+            if ex < (1 << 256) and ey < (1 << 256):
+                yield ('c1-coord>=p-consistent', 'sm2_dec %s 04%s%s%s%s 0 c1c3c2' % (H(d_), H(ex), H(ey), c3s.hex(), c2s.hex()), 'ERR')
+                yield ('c1-coord>=p-consistent', 'sm2_dec %s 04%s%s%s%s 0 c1c2c3' % (H(d_), H(ex), H(ey), c2s.hex(), c3s.hex()), 'ERR')
+                yield ('point-coord>=p-same-residue', 'pk_new 04%s%s' % (H(ex), H(ey)), 'ERR')
     y0 = E.lift_x(0)
     if y0 is not None:
         y0 = y0 if isinstance(y0, int) else y0[1]
@@ -944,6 +956,11 @@ def gen_c19(tier, rng):
         yield ('point-coord>=p-same-residue', 'pk_hex %s' % hx(('04' + H(sx + P) + H(sy)).encode()), None)
         yield ('point-coord>=p-same-residue', 'sm2_spki_dec %s04%s%s' % (spki_prefix_, H(sx + P), H(sy)), None)
         yield ('point-small-x-valid', 'pk_new 04%s%s' % (H(sx), H(sy)), None)
+    for (sx, sy) in E.small_y_points(2):
+        yield ('point-small-y-valid', 'pk_new 04%s%s' % (H(sx), H(sy)), None)
+        yield ('point-coord>=p-same-residue', 'pk_new 04%s%s' % (H(sx), H(sy + P)), None)
+        yield ('point-coord>=p-same-residue', 'pk_hex %s' % hx(('04' + H(sx) + H(sy + P)).encode()), None)
+        yield ('point-coord>=p-same-residue', 'sm2_spki_dec %s04%s%s' % (spki_prefix_, H(sx), H(sy + P)), None)
     for v in (0, N - 1, N, N + 1, (1 << 256) - 1):
         yield ('sk-out-of-range', 'sk_new %s' % H(v), None)
     for ln in (0, 1, 31, 33, 64):
